@@ -757,6 +757,14 @@ pub(crate) fn adjacent(sh: &Shape, x: u8, y: u8, mode: u8) -> bool {
 /// harnesses: bit k of `mask` selects slot k. Directed: the six ordered pairs, then a self-loop
 /// on 1; undirected: the three unordered pairs, then a self-loop on 1.
 pub(crate) fn topo_edges(directed: bool, mask: u8, small_weights: bool) -> Vec<(u8, u8, f64)> {
+    topo_edges_w(directed, mask, if small_weights { 255 } else { 254 })
+}
+
+/// `mode`: 255 = every weight a symbolic integer 1..=8; 254 = every weight 1.0; otherwise only the
+/// selected edge with index `mode` (among the selected slots) is symbolic 1..=8 and the others are
+/// the constants 2, 3, 4, ... (the solver then decides every value of that one weight, including the
+/// exact tie points, while the search order of the rest stays concrete).
+pub(crate) fn topo_edges_w(directed: bool, mask: u8, mode: u8) -> Vec<(u8, u8, f64)> {
     let slots: &[(u8, u8)] = if directed {
         &[(2, 0), (0, 1), (1, 2), (0, 2), (1, 0), (2, 1), (1, 1)]
     } else {
@@ -766,7 +774,16 @@ pub(crate) fn topo_edges(directed: bool, mask: u8, small_weights: bool) -> Vec<(
     let mut k = 0;
     while k < slots.len() {
         if (mask >> k) & 1 == 1 {
-            let w = if small_weights { crate::vk::any_small_weight() } else { 1.0 };
+            let idx = out.len() as u8;
+            let w = if mode == 255 {
+                crate::vk::any_small_weight()
+            } else if mode == 254 {
+                1.0
+            } else if mode == idx {
+                crate::vk::any_small_weight()
+            } else {
+                (2 + idx) as f64
+            };
             out.push((slots[k].0, slots[k].1, w));
         }
         k += 1;
